@@ -730,8 +730,16 @@ func (s *State) execUnOp(u *ssa.UnOp) {
 			for _, f := range c.wf(t, ty, 0) {
 				s.assert(f)
 			}
-			// whatever is stored in the heap was allocated before now
-			s.assumeAllocated(t, ty)
+			// whatever is stored in the heap was allocated before now - and before the function was entered if
+			// the component has not been written since
+			if s.locCompInitial(l) {
+				wm := s.WM
+				s.WM = "WM!0"
+				s.assumeAllocated(t, ty)
+				s.WM = wm
+			} else {
+				s.assumeAllocated(t, ty)
+			}
 		}
 		if bb := c.basicInt(ty); bb != nil && bitsOf(bb) == 8 && isUnsigned(bb) && c.usesBits {
 			t = s.name(u.Name(), "Int", t)
@@ -1668,6 +1676,9 @@ func (s *State) checkFrame(env *SpecEnv, pos string) {
 	}
 	allowed := map[string][]Term{}
 	for _, m := range c.Spec.Modifies {
+		if c.ghostNames()[strings.TrimSpace(m)] {
+			continue
+		}
 		ts, heap := s.modTargets(env.Old, m)
 		if heap {
 			return
@@ -1710,4 +1721,24 @@ func (s *State) checkFrame(env *SpecEnv, pos string) {
 			Goal: fmt.Sprintf("(= (select %s %s) (select %s %s))", cur, r, init, r), PathID: s.PathID}
 		c.Obls = append(c.Obls, o)
 	}
+}
+
+// locCompInitial: the heap component the location reads from still has its entry value.
+func (s *State) locCompInitial(l *Loc) bool {
+	c := s.C
+	var cn string
+	switch l.Kind {
+	case LocObj:
+		if len(l.Path) == 0 {
+			return false
+		}
+		cn, _, _ = c.fieldComp(l.Ty, l.Path[0].Field)
+	case LocBox:
+		cn, _ = c.boxComp(l.Ty)
+	case LocElem:
+		cn, _ = c.elemComp(l.Ty)
+	default:
+		return false
+	}
+	return s.HavocEpoch == 0 && s.Heap[cn] == "|"+cn+"@0|"
 }
